@@ -9,14 +9,15 @@ CONFIGS = [
     {"name": "gvariant", "profile": "debug", "features": ["gvariant"], "target_subdir": "target-gv"},
     {"name": "dbus-release", "profile": "release", "thorough_only": True},
 ]
-RULE = ("p: every string over the 11-symbol alphabet 'y s v a ( ) { } m h z' up to length 5 (quick) / 6, and 7 over 'y s a ( ) { } m' "
-        "(thorough); every string up to length 3 over all 14 type codes + brackets + 'm' + 'z' + 2-byte 'e-acute'; generated long and deep "
+RULE = ("p: every string over the 11-symbol alphabet 'y s v a ( ) { } m h z' up to length 5 (quick; plus length 6 over 'y s a ( ) { }') / 6, and 7 over "
+        "'y s a ( ) { } m' (thorough); every string up to length 3 over all 14 type codes + brackets + 'm' + 'z' + 2-byte 'e-acute'; generated long and deep "
         "strings at 253..257/300 bytes and 31..34/64/65 nesting (arrays, structs, dicts, mixed, below a multi-type top level); all "
         "non-basic dict keys; grammar-driven random signatures and one-edit mutants of them. eq: accepted strings up to length 3 over "
         "'y a ( ) { }' against every string up to length 4 (5 thorough), plus random valid signatures against their own "
         "canonical/stripped/bracket-swapped/multi-byte variants. repr: pairs of trees built through the public constructors "
         "(array/static_array/dict/static_dict/structure/static_structure/maybe/static_maybe) with independent Static/Dynamic tags, same "
-        "and different shapes, Unit children and empty structs included. deep: 30000..100000-fold nesting in a child process. Every case "
+        "and different shapes, Unit children and empty structs included, plus nested structs/arrays over one leaf so that Ord has to walk "
+        "into the fields. deep: up to 4000-fold nesting in process and 30000/50000-fold in a child process. Every case "
         "on the build without and with the gvariant feature (release build too in thorough). non-trivial = a container type is involved "
         "or the string is rejected after the first byte")
 TRUSTED = ["winnow 0.7 combinators (alt, dispatch, tuple, delimited, repeat(1..) and its fold, eof, Parser::parse) modelled by hand in "
@@ -189,6 +190,16 @@ def rand_shape(rng, depth, gv_ok=True):
     return ("M", rand_shape(rng, depth - 1, gv_ok))
 
 
+def rand_nest(rng, depth):
+    """structs and arrays over the single leaf y: Ord has to walk into the fields to tell two of them apart"""
+    r = rng.random()
+    if depth <= 0 or r < 0.25:
+        return ("L", "y")
+    if r < 0.4:
+        return ("A", rand_nest(rng, depth - 1))
+    return ("R", [rand_nest(rng, depth - 1) for _ in range(rng.choice([0, 1, 2, 2, 3]))])
+
+
 def tag_shape(rng, sh, mode=None):
     tg = (lambda: mode) if mode else (lambda: rng.choice("SD"))
     k = sh[0]
@@ -271,6 +282,9 @@ def gen(rng, tier):
     if thorough:
         for s in product_strings("ysa(){}m", 7, 7):
             yield p_line(s)
+    else:
+        for s in product_strings("ysa(){}", 6, 6):
+            yield p_line(s)
     for s in product_strings(CODES + "(){}amz" + E_ACUTE, 3 if thorough else 2):
         yield p_line(s)
     for s in product_strings("ya(){}" + E_ACUTE, 4 if thorough else 3):
@@ -281,7 +295,7 @@ def gen(rng, tier):
     for s in bs:
         yield p_line(s)
     # 3. structured random + one-edit mutants
-    n_rand = 60000 if thorough else 6000
+    n_rand = 60000 if thorough else 15000
     pool = []
     for _ in range(n_rand):
         s = rand_sig(rng)
@@ -342,6 +356,8 @@ def gen(rng, tier):
         other = mutate_shape(rng, sh)
         yield "repr %s %s" % (a, tag_shape(rng, other))
         yield "repr %s %s" % (tag_shape(rng, other), a)
+    for _ in range(20000 if thorough else 4000):
+        yield "repr %s %s" % (tag_shape(rng, rand_nest(rng, 3)), tag_shape(rng, rand_nest(rng, 3)))
     # 6. deep nesting (child process on the harness side when n > 1000)
     for n in (1, 31, 32, 33, 200, 1000, 4000):
         for op, mid, cl in (("(", "y", ")"), ("a", "y", "-"), ("a{s", "v", "}"), ("m", "y", "-"), ("(", "-", "-"), ("(a", "y", ")")):
@@ -401,15 +417,17 @@ def classify(case, impl_out):
 
 
 def search(rng, bad_cases):
-    # widen around a disagreement: one more symbol of exhaustive enumeration and more random signatures
-    for s in product_strings("ysva(){}m", 6, 6):
+    # widen around a disagreement: one more symbol of exhaustive enumeration and more random signatures.
+    # (no 'm': the engine runs search cases without model_lines_for, so they must not depend on the feature config)
+    for s in product_strings("ysva(){}h", 6, 6):
         yield p_line(s)
     for _ in range(30000):
-        s = rand_sig(rng)
+        s = rand_sig(rng, gv=False)
         yield p_line(s)
-        yield p_line(mutate(rng, s))
+        yield p_line(mutate(rng, s).replace("m", "y"))
         yield eq_line(s, s)
         yield eq_line(s, "(" + s + ")")
+        yield eq_line(s, s[1:-1])
 
 
 ENABLED = True
